@@ -680,8 +680,21 @@ def _np_concatenate(it, args, kwargs):
             bs = Seq(bs.len, (lambda bb: lambda j: coerce(it, bb.at(j), bb.sort, V))(bs), V)
         s = s.concat(bs)
         if not same_kind(k, b.kind):
-            k = it.ctx.fresh("promoted_kind", INT)
+            if not it.ctx.branch(promotable(k, b.kind)):
+                raise PyRaise("TypeError", "DTypePromotionError: no common dtype")
+            k2 = it.ctx.fresh("promoted_kind", INT)
+            it.ctx.assume(z3.Implies(kind_term(k) == kind_term(b.kind), k2 == kind_term(k)))
+            k = k2
     return NDArr(it.ctx, s, k, "fresh", None)
+
+
+def promotable(k1, k2):
+    """NumPy finds a common dtype for kinds k1, k2 (assumed table): equal kinds, two numeric kinds,
+    two string kinds, or anything with object."""
+    a, b = kind_term(k1), kind_term(k2)
+    num = lambda x: z3.Or(*[x == KCODE[n] for n in ("bool", "int", "uint", "float")])
+    st = lambda x: z3.Or(x == KCODE["string"], x == KCODE["fixedstr"])
+    return z3.Or(a == b, z3.And(num(a), num(b)), z3.And(st(a), st(b)), a == KCODE["object"], b == KCODE["object"])
 
 
 def _np_sort(it, args, kwargs):
